@@ -275,7 +275,7 @@ func monC04(h *Hist, o *TxnObs) {
 				kind = "signed-transfer"
 				break
 			}
-			if o.Outcome == "success" && o.Call.Meta["free_marker_valid"] == true && id == h.S.StorageOwnerID() && o.Txn.ToClientID == storagesc.ADDRESS {
+			if o.Outcome == "success" && id == h.S.StorageOwnerID() && o.Txn.ToClientID == storagesc.ADDRESS && frAuthorised(h, o) {
 				kind = "free-storage-grant"
 				break
 			}
